@@ -77,7 +77,7 @@ NegOK == {"cmp", "cmpenv", "exec", "exists", "grep", "stderr", "stdout"}
 NoNeg == Builtins \ NegOK
 \* programs registered through testscript.Main: "foo" means "exec foo"
 Helpers == {"hecho", "hfail", "hcat", "htouch", "hgetenv", "hblock"}
-Customs == {"probe", "cfail", "cout"}
+Customs == {"probe", "cfail", "cout", "cpause"}
 
 TrueConds == {"linux", "unix", "exec:hcat", "gc", "go1.18", "symlink"}
 FalseConds == {"windows", "exec:nosuchprog", "go1.999", "gccgo"}
@@ -270,7 +270,8 @@ Program(prog, pa, s) ==
 
 \* background entry: [name, neg, kind, st, out, err]
 \*   kind "echo" / "fail": exits by itself with status 0 / 1;  "block": hblock
-\*   st   "run" (started, not waited for), "sig" (signalled, not waited for), "reaped"
+\*   st   "run" (started, not waited for), "sig" (signalled, not waited for), "reaped",
+\*        "gone" (known to have ended by itself - the script let time pass with cpause -, not waited for)
 BgEntry(name, neg, prog, pa) ==
   CASE prog = "hecho" -> [name |-> name, neg |-> neg, kind |-> "echo", st |-> "run",
                           out |-> Str[pa[1].s] \o <<LF>>, err |-> <<>>]
@@ -335,7 +336,7 @@ CmdWait(s, neg, a) ==
 RECURSIVE KillFrom(_, _)
 KillFrom(s, i) ==
   IF i > Len(s.bg) THEN Ok(s)
-  ELSE IF s.bg[i].st = "reaped" THEN Fail(s)
+  ELSE IF s.bg[i].st \in {"reaped", "gone"} THEN Fail(s)
   ELSE KillFrom([s EXCEPT !.bg[i].st = "sig"], i + 1)
 
 CmdKill(s, neg, a) ==
@@ -346,7 +347,7 @@ CmdKill(s, neg, a) ==
           ELSE IF neg THEN Fail(s)
           ELSE IF name = "" THEN KillFrom(s, 1)
           ELSE LET i == FindBg(s.bg, name) IN
-               IF i = 0 \/ s.bg[i].st = "reaped" THEN Fail(s)
+               IF i = 0 \/ s.bg[i].st \in {"reaped", "gone"} THEN Fail(s)
                ELSE Ok([s EXCEPT !.bg[i].st = "sig"])
 
 \* skip: interrupt everything in the background, wait for it checking statuses, then skip
@@ -361,10 +362,16 @@ CmdSkip(s, neg, a) ==
 \*   probe   records what it sees; [!] not supported
 \*   cfail   fails through ts.Fatalf unless negated
 \*   cout    writes "c\n" to ts.Stdout(); [!] not supported
+\*   cpause  does nothing for a while (time for background commands to end by themselves); [!] not supported
 CmdCustom(cmd, s, neg, a) ==
   CASE cmd = "probe" -> IF neg THEN Fail(s) ELSE Ok([s EXCEPT !.eff = Append(@, Obs(s))])
     [] cmd = "cfail" -> Demand(neg, FALSE, s)
     [] cmd = "cout" -> IF neg THEN Fail(s) ELSE Ok([s EXCEPT !.out = <<99, LF>>, !.err = <<>>])
+    \* after the pause every background command that ends by itself has ended (and has been collected by the engine):
+    \* signalling it is an error from now on, skip / wait / the end of the script find its status as before
+    [] cmd = "cpause" -> IF neg THEN Fail(s)
+                         ELSE Ok([s EXCEPT !.bg = [i \in 1..Len(s.bg) |-> IF s.bg[i].kind # "block" /\ s.bg[i].st = "run"
+                                                                          THEN [s.bg[i] EXCEPT !.st = "gone"] ELSE s.bg[i]]])
 
 \* ------------------------------------------------------------------------
 \* one line
@@ -617,5 +624,5 @@ TypeOK ==
   /\ verdict \in {"running", "pass", "fail", "skip"}
   /\ failed \in BOOLEAN
   /\ cd \in Seq(Names) \cup {<<>>}
-  /\ \A k \in 1..Len(bg) : bg[k].st \in {"run", "sig", "reaped"} /\ bg[k].kind \in {"echo", "fail", "block"}
+  /\ \A k \in 1..Len(bg) : bg[k].st \in {"run", "sig", "reaped", "gone"} /\ bg[k].kind \in {"echo", "fail", "block"}
 =============================================================================
